@@ -26,16 +26,26 @@ class Crash(BaseException):
     """The process dies here: nothing after this point has any effect."""
 
 
+class UnmodelledOs(BaseException):
+    """ledger.pin used an `os` function the in-memory file system does not model: the harness must be extended (never a silent pass)."""
+
+
 class Env:
-    """File system + operation counter shared with the device (for crash positions)."""
+    """In-memory file system + operation counter shared with the device (for crash positions).  `content` is the PIN file."""
     def __init__(self, content, fault_op, crash_after):
-        self.content = content          # None = no file
+        self.files = {}                 # path -> bytes
+        if content is not None:
+            self.files[PATH] = content
         self.fault_op = fault_op        # index of the FILE operation that raises OSError (-1: none)
         self.crash_after = crash_after  # the process dies right after this many operations (file + device); -1: never
         self.file_ops = 0
         self.ops = 0
         self.crashed = False
         self.trace = []
+
+    @property
+    def content(self):
+        return self.files.get(PATH)     # None = no file
 
     def step(self, name):
         """Called at the start of every file / device operation."""
@@ -57,36 +67,68 @@ class Env:
     # --- what ledger.pin sees
     def isfile(self, path):
         self.file_op("isfile")
-        return self.content is not None
+        return path in self.files
 
     def open(self, path, mode="r"):
-        self.file_op("open-" + ("w" if "w" in mode else "r"))
-        if "w" in mode:
-            self.content = b""          # opening for writing truncates
-        elif self.content is None:
+        self.file_op("open-" + ("w" if ("w" in mode or "a" in mode or "x" in mode) else "r"))
+        if "x" in mode and path in self.files:
+            raise FileExistsError(path)
+        if "w" in mode or "x" in mode:
+            self.files[path] = b""          # opening for writing truncates
+        elif "a" in mode:
+            self.files.setdefault(path, b"")
+        elif path not in self.files:
             raise FileNotFoundError(path)
-        return _Handle(self, mode)
+        return _Handle(self, path, mode)
+
+    def remove(self, path):
+        self.file_op("remove")
+        if path not in self.files:
+            raise FileNotFoundError(path)
+        del self.files[path]
+
+    def rename(self, src, dst):
+        self.file_op("rename")
+        if src not in self.files:
+            raise FileNotFoundError(src)
+        self.files[dst] = self.files.pop(src)      # atomic
 
 
 class _Handle:
-    def __init__(self, env, mode):
+    def __init__(self, env, path, mode):
         self.env = env
+        self.path = path
+        self.text = "b" not in mode
 
     def __enter__(self):
         return self
 
     def __exit__(self, *a):
+        self.close()
+        return False
+
+    def close(self):
         if not self.env.crashed:
             self.env.file_op("close")
-        return False
 
     def read(self):
         self.env.file_op("read")
-        return self.env.content
+        c = self.env.files[self.path]
+        return c.decode() if self.text else c
 
     def write(self, b):
         self.env.file_op("write")
-        self.env.content = self.env.content + bytes(b)
+        self.env.files[self.path] = self.env.files.get(self.path, b"") + (b.encode() if isinstance(b, str) else bytes(b))
+
+    def flush(self):
+        pass
+
+    def fileno(self):
+        return 3
+
+    def truncate(self, n=0):
+        self.env.file_op("truncate")
+        self.env.files[self.path] = self.env.files.get(self.path, b"")[:n]
 
 
 class _OsPath:
@@ -96,10 +138,39 @@ class _OsPath:
     def isfile(self, p):
         return self.env.isfile(p)
 
+    def exists(self, p):
+        return self.env.isfile(p)
+
+    def __getattr__(self, name):
+        import os
+        if name in ("join", "dirname", "basename", "abspath", "normpath", "split", "splitext", "sep"):
+            return getattr(os.path, name)
+        raise UnmodelledOs("os.path." + name)
+
 
 class _Os:
     def __init__(self, env):
+        self.env = env
         self.path = _OsPath(env)
+
+    def remove(self, p):
+        return self.env.remove(p)
+
+    unlink = remove
+
+    def rename(self, a, b):
+        return self.env.rename(a, b)
+
+    replace = rename
+
+    def fsync(self, fd):
+        pass
+
+    def __getattr__(self, name):
+        import os
+        if name in ("sep", "linesep", "getpid", "error", "fspath", "O_RDONLY", "O_WRONLY", "O_CREAT", "O_TRUNC", "environ"):
+            return getattr(os, name)
+        raise UnmodelledOs("os." + name)
 
 
 class _Random:
